@@ -160,6 +160,11 @@ func judgeC08(sc Scenario, ex *ExecResult, initial map[string]string) (clause, d
 			return "", "" // C09's verdict
 		}
 	}
+	for _, c := range ex.Calls {
+		if c.Err != "nil" && (c.Call.K == "put" || c.Call.K == "del" || c.Call.K == "get" || c.Call.K == "batch") {
+			return "call-failed", fmt.Sprintf("thread %d: %s returned %s; no sequential execution of these calls makes a valid %s fail, so the history has no linearization", c.Thread, c.Call, c.Err, c.Call.K)
+		}
+	}
 	if d := checkLinearizable(ex, initial); d != "" {
 		return "not-linearizable", d
 	}
